@@ -182,8 +182,37 @@ func judgeAcc(flavour string, b []byte, t midi.Type, accs []acc) {
 	}
 }
 
+var smfCatsOrig = []midi.Type{smf.MetaMsg, smf.MetaTextMsg, midi.ChannelMsg, smf.MetaTempoMsg, midi.SysExMsg, midi.NoteOnMsg}
+var smfCats = append(make([]midi.Type, 0, 16), smfCatsOrig...)
+
 func judgeSMF(b []byte) {
 	m := smf.Message(b)
+	// the checkers are handed over from slices of the caller's that are used
+	// again and again, meta kinds in front (arguments belong to the caller;
+	// the answer must be that of asking one by one)
+	{
+		want := false
+		for _, t := range smfCats {
+			want = want || m.Is(t)
+		}
+		var got bool
+		c := engine.Catch(func() { got = m.IsOneOf(smfCats...) })
+		if c.Panicked {
+			report(c.Sig+":smf.Message.IsOneOf", "smf", b, "panicked: "+c.Value)
+			return
+		}
+		for k := range smfCats {
+			if smfCats[k] != smfCatsOrig[k] {
+				report("category:smf:IsOneOf-changes-its-arguments", "smf", b, fmt.Sprintf("the slice of types passed to IsOneOf was changed: %v, was %v", smfCats, smfCatsOrig))
+				copy(smfCats, smfCatsOrig)
+				return
+			}
+		}
+		if got != want {
+			report("category:smf:IsOneOf-disagrees-with-Is", "smf", b, fmt.Sprintf("IsOneOf(%v)=%v, asking one by one gives %v", smfCats, got, want))
+			return
+		}
+	}
 	var t midi.Type
 	var cats [6]bool
 	var accs []acc
